@@ -43,6 +43,11 @@ pub fn euler_checks<R: Residual>(model: &Arc<R>, s: &RState, lam: f64) -> Vec<Ch
         // the model is undefined at this state (e.g. ePC-SAFT outside the range of its permittivity model): nothing to compare
         return out;
     }
+    // conditioning of the f64 evaluation: a model whose contributions cancel (a chain functional and its ideal-chain counterpart are
+    // each ~ N (m-1) ln rho and cancel to ~ N B rho in a thin gas) carries rounding noise eps * kappa relative to A^res, with
+    // kappa = sum |contributions| / |A^res|; the tolerance of every identity is widened by 1e-15 * kappa / ORACLE_TOL (nothing for kappa < 1e5)
+    let kappa = st.residual_helmholtz_energy_contributions().iter().map(|(_, x)| x.to_reduced().abs()).sum::<f64>() / a.abs().max(1e-300);
+    let amp = 1.0 + 1e-15 * kappa / ORACLE_TOL;
     let p_res = st.pressure(Contributions::Residual).to_reduced();
     let mu = st.residual_chemical_potential().to_reduced();
     let mun: f64 = (0..nc).map(|i| mu[i] * n[i]).sum();
@@ -142,6 +147,11 @@ pub fn euler_checks<R: Residual>(model: &Arc<R>, s: &RState, lam: f64) -> Vec<Ch
         let d1 = st.dp_dv(Contributions::Total).to_reduced();
         let d2 = st2.dp_dv(Contributions::Total).to_reduced();
         out.push(Check { name: "dp/dV degree -1", resid: d2 * lam - d1, scale: d1.abs() + (st.dp_dv(Contributions::Residual).to_reduced()).abs() });
+    }
+    if amp.is_finite() {
+        for ch in out.iter_mut() {
+            ch.scale *= amp;
+        }
     }
     out
 }
